@@ -58,6 +58,12 @@ impl RepetitionTable {
     pub fn is_empty(&self) -> bool {
         self.hashes.is_empty()
     }
+
+    /// Verification hook: a copy of the recorded history.
+    #[cfg(flounder_verif)]
+    pub fn verif_snapshot(&self) -> Vec<u64> {
+        self.hashes.clone()
+    }
 }
 
 impl Default for RepetitionTable {
